@@ -24,6 +24,7 @@ RULE = (
     "oracle's dloss_t/dleaf; every other .grad is untouched. Non-trivial = >= 2 tasks with distinct rows and one of: "
     ">= 2 features, a leaf listed by >= 2 tasks, a task without parameters, >= 2 shared leaves of equal numel. "
     "Distinct = distinct case description."
+    " Part `large_trunk`: 2-5 tasks over 7e4..2.4e6 shared scalars in 2-3 tensors, closed-form rows t_i (c_i * (1 - tanh(F)^2)) [A_1|A_2|..]."
 )
 ASSUMPTIONS = [
     "features are mutually independent nodes (a feature computed from another feature is double counted by "
